@@ -4,6 +4,8 @@ import os
 import random
 import sys
 
+import pandas as pd_
+
 import common as C
 import mon_net as MN
 import netgen as NG
@@ -45,10 +47,23 @@ def monitor_models(rep, pid, n, ndates=4, opts=None, mode="exact", known=None):
             # every fourth model: parameters changed through apply_overrides between building and running
             o["overrides"] = True
             stats["with_overrides"] = stats.get("with_overrides", 0) + 1
+        two_calls = pid in ("C02", "C03") and i % 4 == 1 and ndates >= 4
+        if two_calls:
+            o["arc_mix"] = 0.5          # (travel-time arcs: water under way at the boundary between the two calls)
         cfg = NG.gen_model(random.Random(seed), ndates=ndates, size=size, opts=o)
         for a in cfg["arcs"]:
             stats["arc_classes"][a["type_"]] = stats["arc_classes"].get(a["type_"], 0) + 1
-        mon, model, err, out = MN.run_cfg(cfg, mode, pids=(pid,))
+        if two_calls:
+            # the dates are run as two consecutive calls of Model.run on the one model (no reinit in between), the monitor
+            # stays attached: the ledgers must close across the boundary as across any other close-out
+            k = ndates // 2
+            mon, model, err, out = MN.run_cfg(cfg, mode, pids=(pid,), dates=[pd_.Timestamp(d) for d in cfg["dates"][:k]])
+            if err is None and model is not None and not getattr(mon, "too_slow", False):
+                NG.set_pollutants(cfg["polset"])          # (run_cfg leaves the library's default set behind)
+                mon, model, err, out = MN.run_cfg(cfg, mode, pids=(pid,), mon=mon, model=model, dates=[pd_.Timestamp(d) for d in cfg["dates"][k:]])
+            stats["run_in_two_calls"] = stats.get("run_in_two_calls", 0) + 1
+        else:
+            mon, model, err, out = MN.run_cfg(cfg, mode, pids=(pid,))
         if pid in ("C06", "C12") and i % 4 == 3 and err is None and model is not None and not getattr(mon, "too_slow", False):
             # ... and once more after Model.reinit(): nothing negative, nothing raised in a re-initialised model either
             try:
